@@ -644,6 +644,10 @@ func (e *Env) evalAddr(x ast.Expr) (ref string, t types.Type, ghostSort string) 
 				baseRef = xv.S
 				if xv.T != nil {
 					baseT = derefType(xv.T)
+					if baseT == nil {
+						// maps and channels are references themselves: ghost fields hang off their own type
+						baseT = xv.T
+					}
 				}
 			case KIface:
 				baseRef = xv.Pay
